@@ -223,4 +223,98 @@ example :
 -- a formatted chunk before any PVP write is refused when the metadata has AmpSF
 example : (step ampDemoCfg (init ampDemoCfg) (.writeSig 0 0 ⟨1, fun _ => 7⟩ false)).2 = .refused := by decide
 
+/-! ### order of effects: the bytes recorded for an element are the bytes handed over at the accepted write -/
+
+theorem putData_bytes_stable (c : Cfg α) (s : State α) (j k : Nat) (d b : Blk α) (h : (s.el k).bytes = some b) :
+    ((putData c s j d).1.el k).bytes = some b := by
+  unfold putData
+  split
+  · split
+    · exact h
+    · rename_i hb
+      simp only [setEl]
+      split
+      · rename_i e; subst e; rw [h] at hb; simp at hb
+      · exact h
+  · simp only [setEl]
+    split
+    · rename_i e; subst e; exact h
+    · exact h
+
+theorem putChunk_bytes (c : Cfg α) (s : State α) (j r0 k : Nat) (d : Blk α) (raw : Bool) :
+    ((putChunk c s j r0 d raw).el k).bytes = (s.el k).bytes := by
+  unfold putChunk
+  by_cases hj : k = j
+  · subst hj; cases c.inMem <;> simp [setEl]
+  · cases c.inMem <;> simp [setEl, hj]
+
+/-- **`item_bytes` is set once**: whatever is recorded for an element stays recorded, through every later operation -/
+theorem bytes_stable_step (c : Cfg α) (s : State α) (op : Op α) (k : Nat) (b : Blk α) (h : (s.el k).bytes = some b) :
+    (((step c s op).1).el k).bytes = some b := by
+  cases op with
+  | writePvp i d a =>
+    simp only [step]
+    split
+    · exact h
+    · apply putData_bytes_stable
+      rw [((sameData_markCanReg c s i a).2.2.2.2 k).1]; exact h
+  | writeSup j d =>
+    simp only [step]
+    split
+    · exact h
+    · exact putData_bytes_stable c s _ k d b h
+  | writeSig i r0 d raw =>
+    simp only [step]
+    split
+    · exact h
+    · rw [putChunk_bytes]; exact h
+  | flush =>
+    simp only [step]
+    split
+    · exact h
+    · rw [flushCore_bytes, snapEl_keep c false k _ (by simp [h])]; exact h
+  | close =>
+    simp only [step]
+    split
+    · exact h
+    · show ((flushCore c true s).el k).bytes = some b
+      rw [flushCore_bytes, snapEl_keep c true k _ (by simp [h])]; exact h
+
+theorem bytes_stable_run (c : Cfg α) (s : State α) (ops : List (Op α)) (k : Nat) (b : Blk α) (h : (s.el k).bytes = some b) :
+    ((run c s ops).el k).bytes = some b := by
+  induction ops generalizing s with
+  | nil => exact h
+  | cons op ops ih => exact ih _ (bytes_stable_step c s op k b h)
+
+/-- **order of effects, support array** (in memory): an accepted `write_support_array` records exactly the block handed over in that call
+    (the array is filled *before* `item_bytes` is taken), and every later history leaves it recorded -/
+theorem accepted_sup_write_records_handed_bytes (c : Cfg α) (s : State α) (j : Nat) (d : Blk α) (ops : List (Op α)) (hm : c.inMem = true)
+    (hok : ¬ supBad c s j d) (hnb : (s.el (c.supIdx j)).bytes = none) :
+    (step c s (.writeSup j d)).2 = .ok ∧ ((run c s (.writeSup j d :: ops)).el (c.supIdx j)).bytes = some d := by
+  have h1 : (step c s (.writeSup j d)).2 = .ok := by
+    simp only [step, if_neg hok]
+    exact putData_out c s _ d (by rw [hnb]; simp)
+  refine ⟨h1, ?_⟩
+  simp only [run]
+  apply bytes_stable_run
+  simp only [step, if_neg hok, putData, hm, hnb, if_true]
+  simp [setEl]
+
+/-- the same for an accepted `write_pvp_array` in memory -/
+theorem accepted_pvp_write_records_handed_bytes (c : Cfg α) (s : State α) (i a : Nat) (d : Blk α) (ops : List (Op α)) (hm : c.inMem = true)
+    (hok : ¬ pvpBad c s i d) :
+    (step c s (.writePvp i d a)).2 = .ok ∧ ((run c s (.writePvp i d a :: ops)).el i).bytes = some d := by
+  have hb := hok
+  simp only [pvpBad, not_or, Decidable.not_not, not_and] at hb
+  have hne : i ≠ c.sigIdx i := by unfold Cfg.sigIdx; omega
+  have hnb : (s.el i).bytes.isSome = false := by
+    cases h : (s.el i).bytes.isSome with
+    | false => rfl
+    | true => exact absurd h (hb.2.2.2 hm)
+  refine ⟨by rw [writePvp_out, if_neg hok], ?_⟩
+  simp only [run]
+  apply bytes_stable_run
+  simp only [step, if_neg hok, putData, hm, if_true, markCanReg_el_ne c s i a i hne, hnb, Bool.false_eq_true, if_false]
+  simp [setEl]
+
 end Sarpy.Props.C09
